@@ -131,6 +131,7 @@ func genC07(r *hx.R, tier string, _ string) (*hx.Suite, error) {
 		Shard:    400,
 		Rule: "exhaustive strings up to length L over a 12-symbol alphabet (one per character class, separators, non-ASCII/NUL); " +
 			"every byte value 0..255 and a set of multi-byte runes at first/middle/last/only position of each of the three parts; " +
+			"parts of 13 .. 1024 characters (13, 32, 63-65, 128, 129, 255-257, 1024), valid and with an offending character second / middle / second to last; " +
 			"random grammar-derived names with 0-2 mutations; random triples through QualifiedName. " +
 			"A string case is non-trivial when ParseDevice found a vendor (the validators were reached) or the string is itself a valid vendor/class/device name; distinct by input string.",
 	}
@@ -177,6 +178,30 @@ func genC07(r *hx.R, tier string, _ string) (*hx.Suite, error) {
 			if tier == "thorough" || shape == "aXb" || shape == "X" {
 				s.Add(c07Str(part, "sweep-part"))
 			}
+		}
+	}
+	// long parts: the grammar has no length limit; an offending character second, in the middle, second to last
+	lens := []int{13, 32, 63, 64, 65, 128, 129, 255, 256, 257, 1024}
+	if tier == "thorough" {
+		lens = append(lens, 2048, 4097)
+	}
+	for _, n := range lens {
+		body := strings.Repeat("abcdefghijklmnopqrstuvwxyz0123456789_-.", n/39+1)
+		good := "a" + body[:n-2] + "z"
+		s.Add(c07Str(good+"/cl=dev", "long-vendor"))
+		s.Add(c07Str("ven/"+good+"=dev", "long-class"))
+		s.Add(c07Str("ven/cl="+good, "long-name"))
+		s.Add(c07Str(good+"/"+good+"="+good, "long-all"))
+		s.Add(c07Str(good, "long-part"))
+		for _, pos := range []int{1, n / 2, n - 2} {
+			bad := good[:pos] + hx.Pick(r, []string{"!", ":", " ", "\xc3\xa9"}) + good[pos+1:]
+			s.Add(c07Str(bad+"/cl=dev", "long-vendor"))
+			s.Add(c07Str("ven/"+bad+"=dev", "long-class"))
+			s.Add(c07Str("ven/cl="+bad, "long-name"))
+			s.Add(c07Str(bad, "long-part"))
+		}
+		if n <= 257 {
+			s.Add(c07Triple(good, good, good))
 		}
 	}
 	// random grammar-derived names, mutated
